@@ -159,11 +159,12 @@ def result_rows(res, with_tree=True):
     for i in range(len(data)):
         r = data.iloc[i]
         row = {"energy": _get(r, "Total<SEP>energy"), "latency": _get(r, "Total<SEP>latency"),
-               "edp": _get(r, "Total<SEP>energy_delay_product"), "usage": {}}
+               "edp": _get(r, "Total<SEP>energy_delay_product"), "usage": {}, "reservations": {}}
         for c in data.columns:
             if c.startswith("reservation" + SEP):
                 parts = c.split(SEP)
                 row["usage"][parts[1]] = max(row["usage"].get(parts[1], 0.0), float(r[c]))
+                row["reservations"][c] = float(r[c])
         if with_tree:
             row["tree"] = plain_tree(r["Total<SEP>mapping"]())
         rows.append(row)
